@@ -24,7 +24,8 @@ from rtmon import history as H
 LEVEL = "exploration"
 WORKERS = 14
 CASE_TIMEOUT = 300
-REQUIRED_OBS = ["descriptions_compared", "relocations", "version_decisions", "writes_after_relocation"]
+REQUIRED_OBS = ["descriptions_compared", "relocations", "version_decisions", "writes_after_relocation",
+                "other_release_processes"]
 RULE = ("(a) descriptions: unicode text (astral, control, quotes), nested custom metadata (strings, ints incl. big, "
         "finite floats, booleans, nulls, lists, string-keyed maps) at dataset/attribute/shard level x every "
         "compression/format/algorithm setting; (b) relocation target classes (nested, unicode, blanks, relative to cwd, "
@@ -78,6 +79,13 @@ def gen_cases(tier: str, seed: int) -> list[dict]:
         if tier == "thorough":
             triples |= {(rng.randrange(0, 12), rng.randrange(0, 30), rng.randrange(0, 120)) for _ in range(40)}
         cases.append({"kind": "version", "running": run, "recorded": sorted(".".join(map(str, t)) for t in triples)})
+    # another release as a whole (fresh interpreter whose sedpack.__version__ differs) writing and reading through the
+    # ordinary API: nothing is edited by hand
+    import sedpack
+    a, b, c = (int(x) for x in sedpack.__version__.split("."))
+    others = [(a, b, c + 1), (a, b, max(0, c - 1)), (a + 1, 0, 0), (0, 0, 1), (a, b, c), (a, b + 1, 0)]
+    for other in (others[:4] if tier == "quick" else others + [(a, b, c + 10), (a + 10, 0, 0)]):
+        cases.append({"kind": "other-release", "version": ".".join(map(str, other))})
     if tier == "quick":
         rng.shuffle(cases)
     return cases
@@ -91,6 +99,8 @@ def run_case(case: dict) -> dict:
             return run_description(case, work)
         if case["kind"] == "relocate":
             return run_relocate(case, work)
+        if case["kind"] == "other-release":
+            return run_other_release(case, work)
         return run_version(case, work)
     finally:
         os.chdir(cwd)
@@ -330,6 +340,59 @@ def finish(case: dict, violations: list, obs: Counter) -> dict:
             "sample": {"relocate": case["target"], "spelling": case["spelling"], "move": case["move"]}}
 
 
+def run_other_release(case: dict, work: Path) -> dict:
+    import os
+    import subprocess
+    import sedpack
+    from sedpack.io import Dataset
+    violations: list[dict] = []
+    obs: Counter = Counter()
+    mine, theirs, out_path = work / "written_by_this_release", work / "written_by_other_release", work / "out.json"
+    dataset = dsmod.create(mine, "npz", "", 2)
+    with dataset.filler() as filler:
+        filler.write_example(values=dsmod.example(dsmod.make_id("train", 0, 0, 0)), split="train")
+    proc = subprocess.run([common.PY, "-m", "rtmon.props.c20_child", case["version"], str(mine), str(theirs), str(out_path)],
+                          cwd=str(common.VERIF), env=dict(os.environ, PYTHONPATH=str(common.VERIF)),
+                          capture_output=True, text=True, timeout=240, check=False)
+    if not out_path.is_file():
+        return {"sig": "child-failed", "nontrivial": False, "violations": [], "obs": {},
+                "inconclusive": [f"other-release child failed rc={proc.returncode}: {proc.stderr[-400:]}"]}
+    out = json.loads(out_path.read_text())
+    real = sedpack.__version__
+    real_t, other_t = tuple(int(x) for x in real.split(".")), tuple(int(x) for x in case["version"].split("."))
+    obs["other_release_processes"] += 1
+    obs["version_decisions"] += 2
+    # (a) the other release met the dataset this release wrote
+    if real_t > other_t and out["open"] == "loaded":
+        violations.append({"key": "newer-version-loaded/by-older-release",
+                           "msg": f"release {case['version']} loaded a dataset written through the API by release {real}"})
+    if real_t <= other_t and out["open"] != "loaded":
+        violations.append({"key": "same-or-older-version-refused/by-other-release",
+                           "msg": f"release {case['version']} refused a dataset written by release {real}: {out['open']}"})
+    # (b) this release meets the dataset the other release wrote
+    if out.get("write") != "ok":
+        violations.append({"key": "other-release-write-raised", "msg": f"{case['version']}: {out.get('write')}"})
+    else:
+        try:
+            loaded = Dataset(theirs)
+            outcome = "loaded"
+        except Exception as exc:  # pylint: disable=broad-exception-caught
+            loaded, outcome = None, f"refused {type(exc).__name__}: {str(exc)[:160]}"
+        if other_t > real_t and loaded is not None:
+            violations.append({"key": "newer-version-loaded/written-by-newer-release",
+                               "msg": f"a dataset written through the API by release {case['version']} loaded under release {real}"})
+        if other_t <= real_t:
+            if loaded is None:
+                violations.append({"key": "same-or-older-version-refused/written-by-older-release",
+                                   "msg": f"a dataset written by release {case['version']}: {outcome}"})
+            elif loaded.metadata.sedpack_version != case["version"]:
+                violations.append({"key": "recorded-version-not-reconstructed",
+                                   "msg": f"a dataset written by release {case['version']} opens with sedpack_version="
+                                          f"{loaded.metadata.sedpack_version!r}"})
+    return {"sig": ["other-release", case["version"]], "nontrivial": True, "violations": violations, "obs": dict(obs),
+            "sample": {"other_release": case["version"], "it_opened_ours": out["open"][:40]}}
+
+
 def run_version(case: dict, work: Path) -> dict:
     import sedpack
     from sedpack.io import Dataset
@@ -364,6 +427,28 @@ def run_version(case: dict, work: Path) -> dict:
                 violations.append({"key": "same-or-older-version-refused",
                                    "msg": f"dataset recorded by {recorded} refused by {case['running']}: {reason}"})
             obs["refused" if not loaded else "loaded"] += 1
+        # the untouched file, exactly as the ordinary API of the real running version wrote it, met by other
+        # running versions: the version that wrote it must be what the gate compares with (nothing was edited)
+        info_path.write_text(pristine)
+        real_t = tuple(int(x) for x in real.split("."))
+        for running in ("0.0.1", f"{real_t[0]}.{real_t[1]}.{max(0, real_t[2] - 1)}", real,
+                        f"{real_t[0]}.{real_t[1]}.{real_t[2] + 1}", f"{real_t[0] + 1}.0.0"):
+            sedpack.__version__ = running
+            run_t = tuple(int(x) for x in running.split("."))
+            try:
+                Dataset(root)
+                loaded = True
+            except Exception as exc:  # pylint: disable=broad-exception-caught
+                loaded = False
+                reason = f"{type(exc).__name__}: {str(exc)[:120]}"
+            obs["version_decisions"] += 1
+            obs["unedited_description_decisions"] += 1
+            if real_t > run_t and loaded:
+                violations.append({"key": "newer-version-loaded/unedited-description",
+                                   "msg": f"a dataset written through the API by version {real} loaded under running version {running}"})
+            if real_t <= run_t and not loaded:
+                violations.append({"key": "same-or-older-version-refused/unedited-description",
+                                   "msg": f"a dataset written by version {real} refused by running version {running}: {reason}"})
     finally:
         sedpack.__version__ = real
     return {"sigs": sigs, "sig": None, "nontrivial": True, "violations": violations, "obs": dict(obs),
